@@ -1,0 +1,56 @@
+//go:build verif
+
+// Bitmap-level contracts (see /verif/DESIGN.md 10).  Comments only; compiled only
+// with the build tag `verif`.
+//
+// A Bitmap is its container collection: the abstract state of a collection is the
+// ghost map $m from container key to container (nil = absent).  The three methods a
+// point operation uses are specified at the interface; sliceContainers and
+// bTreeContainers are verified against the same map semantics under C02
+// (verif_contracts_containers.go), so these interface contracts are the statement
+// of what was proved there, assumed at the call site.
+//
+// Point reads and writes of a Bitmap are then verified against the set
+//     bmem(b, x)  <==>  mem(b.Containers.$m[x / 65536], x % 65536)
+// i.e. every history of DirectAdd / remove keeps Contains equal to the set obtained
+// by applying the mutations in order (C02), and no other value changes (C01).
+
+package roaring
+
+//@ ghost Containers.$m map[uint64]*Container
+
+//@ contract (Containers).Get trusted props C01,C02
+//@   requires self != nil
+//@   ensures result == self.$m[key] && !fresh(result)
+//@   modifies nothing
+//@ contract (Containers).GetOrCreate trusted props C01,C02
+//@   requires self != nil
+//@   modifies self.$m, sliceContainers.*, bTreeContainers.*, tree.*, elemtype uint64, elemtype *Container
+//@   ensures result != nil && self.$m[key] == result
+//@   ensures old(self.$m[key]) != nil ==> result == old(self.$m[key])
+//@   ensures old(self.$m[key]) == nil ==> fresh(result) && result.typeID == 1 && result.n == 0 && result.flags == 0 && len(result.$arr) == 0 && fresh(result.$arr) && result.$runs.ref == 0 && result.$bm.ref == 0
+//@   ensures forall k :: k != key ==> self.$m[k] == old(self.$m[k])
+//@ contract (Containers).Put trusted props C01,C02
+//@   requires self != nil
+//@   modifies self.$m, sliceContainers.*, bTreeContainers.*, tree.*, elemtype uint64, elemtype *Container
+//@   ensures self.$m[key] == c
+//@   ensures forall k :: k != key ==> self.$m[k] == old(self.$m[k])
+
+//@ spec cm(b *Bitmap, k int) = b.Containers.$m[k]
+//@ spec bmem(b *Bitmap, x int) = mem(cm(b, x / 65536), x % 65536)
+// every container of the bitmap is well formed for mutation, allocated, and no two
+// containers share storage (storage is only ever shared between bitmaps, through
+// frozen containers, which are never written)
+//@ spec bmWF(b *Bitmap) = b != nil && b.Containers != nil && (forall k :: cm(b, k) != nil ==> wfMut(cm(b, k)) && allocated(cm(b, k)))
+//@ spec bmSep(b *Bitmap) = forall k1, k2 :: k1 != k2 && cm(b, k1) != nil && cm(b, k2) != nil ==> cm(b, k1) != cm(b, k2) && (cm(b, k1).$arr.ref == 0 || cm(b, k1).$arr.ref != cm(b, k2).$arr.ref) && (cm(b, k1).$runs.ref == 0 || cm(b, k1).$runs.ref != cm(b, k2).$runs.ref) && (cm(b, k1).$bm.ref == 0 || cm(b, k1).$bm.ref != cm(b, k2).$bm.ref)
+
+// coupled(b): the abstract set $set used by the contracts of package pilosa is the set
+// the containers hold.  The trusted mutators of verif_contracts_abstract.go are
+// assumed to maintain it; the verified readers below rely on it.
+//@ spec coupled(b *Bitmap) = forall x :: b.$set[x] <==> bmem(b, x)
+
+//@ contract (*Bitmap).Contains props C01,C02,C07
+//@   requires b != nil && b.Containers != nil && (forall k :: cm(b, k) != nil ==> wfT(cm(b, k)))
+//@   ensures result <==> bmem(b, v)
+//@   ensures coupled(b) ==> (result <==> b.$set[v])
+//@   modifies nothing
